@@ -1650,7 +1650,24 @@ class Mailbox:
         #     during any asyncio process where we want to guarantee writership.
         #
         assert self.mh_sequences_lock.locked()
-        self.mailbox.set_sequences({k: list(v) for k, v in seqs.items()})
+
+        # Messages that are in the folder but that we have not seen yet (they
+        # were delivered since our last look at the folder) keep what the
+        # folder's `.mh_sequences` says about them now: `seqs` comes from what
+        # we know, and writing only that would take away, for example, the
+        # `unseen` mark the delivery agent gave such a message.
+        #
+        out = {k: set(v) for k, v in seqs.items()}
+        known = set(self.msg_keys)
+        try:
+            on_disk = self.mailbox.get_sequences()
+        except Exception:
+            on_disk = {}
+        for name, keys in on_disk.items():
+            unknown = set(keys) - known
+            if unknown:
+                out.setdefault(name, set()).update(unknown)
+        self.mailbox.set_sequences({k: sorted(v) for k, v in out.items()})
 
     ##################################################################
     #
